@@ -157,6 +157,141 @@ func nonNilAtomFor(a *an.Atom, ref objRef) bool {
 	return false
 }
 
+// helperKSites: atom a states that a call of a module helper yielded a particular constant K (nil error, "" or another
+// string/integer constant, true/false). It returns the call and, for every return of the helper that can yield K, either the
+// site to cut (constant returns) or the condition atom that then holds (`return cond`). ok=false if a is not of that form or
+// the helper has a return that cannot be classified.
+func helperKSites(a *an.Atom) (call *ssa.Call, sites []ssa.Instruction, conds []*an.Atom, ok bool) {
+	if a == nil {
+		return nil, nil, nil, false
+	}
+	var want *ssa.Const
+	wantBool, isBool := false, false
+	switch a.Op {
+	case "==":
+		for _, side := range [][2]ssa.Value{{a.LV, a.RV}, {a.RV, a.LV}} {
+			k, isK := side[1].(*ssa.Const)
+			if !isK {
+				continue
+			}
+			if cl, isCall := unwrapErr(side[0]).(*ssa.Call); isCall {
+				call, want = cl, k
+			} else if ex, isEx := unwrapErr(side[0]).(*ssa.Extract); isEx {
+				if cl, isCall := ex.Tuple.(*ssa.Call); isCall {
+					call, want = cl, k
+				}
+			}
+		}
+	case "true", "false":
+		if cl, isCall := a.LV.(*ssa.Call); isCall {
+			call, isBool, wantBool = cl, true, a.Op == "true"
+		}
+	}
+	if call == nil {
+		return nil, nil, nil, false
+	}
+	h := call.Call.StaticCallee()
+	if h == nil || !prog.InModule(h) || h.Blocks == nil || call.Call.IsInvoke() {
+		return nil, nil, nil, false
+	}
+	idx := 0
+	if !isBool && want.Value == nil {
+		// nil: the error result
+		idx = errResultIndex(h)
+		if idx < 0 {
+			return nil, nil, nil, false
+		}
+	} else if h.Signature.Results().Len() != 1 {
+		return nil, nil, nil, false
+	}
+	for _, ret := range an.Returns(h) {
+		if idx >= len(ret.Results) {
+			return nil, nil, nil, false
+		}
+		v := an.Result(ret, idx)
+		if !isBool && want.Value == nil {
+			v = unwrapErr(v)
+		}
+		type cand struct {
+			v    ssa.Value
+			site ssa.Instruction
+		}
+		var cands []cand
+		if phi, isPhi := v.(*ssa.Phi); isPhi {
+			for j, e := range phi.Edges {
+				pred := phi.Block().Preds[j]
+				cands = append(cands, cand{e, pred.Instrs[len(pred.Instrs)-1]})
+			}
+		} else {
+			cands = append(cands, cand{v, ret})
+		}
+		for _, cd := range cands {
+			k, isK := cd.v.(*ssa.Const)
+			switch {
+			case isBool && isK:
+				if (an.Term(k) == "true") == wantBool {
+					sites = append(sites, cd.site)
+				}
+			case isBool:
+				conds = append(conds, an.CondAtom(cd.v, wantBool))
+				sites = append(sites, cd.site) // the site is also acceptable if cut
+			case isK:
+				if an.Term(k) == an.Term(want) {
+					sites = append(sites, cd.site)
+				}
+			default:
+				if want.Value == nil {
+					continue // a non-constant error value: not the nil constant (errors produced by calls are failures)
+				}
+				return nil, nil, nil, false
+			}
+		}
+	}
+	return call, sites, conds, true
+}
+
+// helperEstablishes: atom a is the K-result of a helper that received (as argument accepted by matchArg) the object of
+// interest, and every K-return of the helper is cut by the edges accepted by judgeIn(helper, parameter).
+func helperEstablishes(a *an.Atom, matchArg func(ssa.Value) bool, judgeIn func(h *ssa.Function, prm *ssa.Parameter) func(*an.Atom) bool) bool {
+	call, sites, conds, ok := helperKSites(a)
+	if !ok || len(sites) == 0 {
+		return false
+	}
+	h := call.Call.StaticCallee()
+	for ai, arg := range call.Call.Args {
+		if ai >= len(h.Params) || !matchArg(arg) {
+			continue
+		}
+		judge := judgeIn(h, h.Params[ai])
+		if judge == nil {
+			continue
+		}
+		good := true
+		for k, site := range sites {
+			site := site
+			// `return cond` with cond itself establishing the fact
+			_ = k
+			if x, _ := an.Cut(an.CutQuery{From: an.Entry(h), Target: func(i ssa.Instruction) bool { return i == site },
+				AcceptEdge: func(b *ssa.BasicBlock, i int, e *an.Atom) bool { return judge(e) }}); x != nil {
+				okCond := false
+				for _, ca := range conds {
+					if judge(ca) {
+						okCond = true
+					}
+				}
+				if !okCond {
+					good = false
+					break
+				}
+			}
+		}
+		if good {
+			return true
+		}
+	}
+	return false
+}
+
 // forallGuardLoops returns full-range loops over slice parameter p of fn in which an iteration continues only past
 // [p[i](.path) != nil], directly or through a per-element helper whose nil-error returns imply it.
 func (c *Ctx) forallGuardLoops(fn *ssa.Function, p *ssa.Parameter, T *types.Named, path string, judge refAtom) []*Loop {
@@ -173,28 +308,15 @@ func (c *Ctx) forallGuardLoops(fn *ssa.Function, p *ssa.Parameter, T *types.Name
 				if judge(a, ref) {
 					return true
 				}
-				// helper(elem) err == nil
-				if a != nil && a.Op == "==" {
-					for _, side := range [][2]ssa.Value{{a.LV, a.RV}, {a.RV, a.LV}} {
-						if !isNilConst(side[1]) {
-							continue
-						}
-						call, ok := unwrapErr(side[0]).(*ssa.Call)
-						if !ok {
-							continue
-						}
-						cal := call.Call.StaticCallee()
-						if cal == nil || !prog.InModule(cal) || cal.Blocks == nil {
-							continue
-						}
-						for ai, arg := range call.Call.Args {
-							if r, ok := objOf(arg); ok && r.same(objRef{T: T, Param: p, Elem: true, Idx: l.Idx}) && ai < len(cal.Params) {
-								if c.helperImpliesNonNil(cal, cal.Params[ai], T, path, judge) {
-									return true
-								}
-							}
-						}
-					}
+				// the K-result of a per-element helper (nil error, "" problem, true/false ...)
+				if helperEstablishes(a, func(arg ssa.Value) bool {
+					r, ok := objOf(arg)
+					return ok && r.same(objRef{T: T, Param: p, Elem: true, Idx: l.Idx})
+				}, func(h *ssa.Function, prm *ssa.Parameter) func(*an.Atom) bool {
+					ref := objRef{T: T, Param: prm, Path: path}
+					return func(e *an.Atom) bool { return judge(e, ref) }
+				}) {
+					return true
 				}
 				return false
 			}})
@@ -265,24 +387,15 @@ func (c *Ctx) established(fn *ssa.Function, site ssa.Instruction, ref objRef, ju
 			if judge(a, ref) {
 				return true
 			}
-			// per-object helper: helper(obj) err == nil
-			if a != nil && a.Op == "==" && !ref.Elem {
-				for _, side := range [][2]ssa.Value{{a.LV, a.RV}, {a.RV, a.LV}} {
-					if !isNilConst(side[1]) {
-						continue
-					}
-					if call, ok := unwrapErr(side[0]).(*ssa.Call); ok {
-						cal := call.Call.StaticCallee()
-						if cal == nil || !prog.InModule(cal) || cal.Blocks == nil {
-							continue
-						}
-						for ai, arg := range call.Call.Args {
-							if r, ok := objOf(arg); ok && r.same(objRef{T: ref.T, Param: ref.Param}) && ai < len(cal.Params) && c.helperImpliesNonNil(cal, cal.Params[ai], ref.T, ref.Path, judge) {
-								return true
-							}
-						}
-					}
-				}
+			// per-object helper: the K-result of helper(obj)
+			if !ref.Elem && helperEstablishes(a, func(arg ssa.Value) bool {
+				r, ok := objOf(arg)
+				return ok && r.same(objRef{T: ref.T, Param: ref.Param})
+			}, func(h *ssa.Function, prm *ssa.Parameter) func(*an.Atom) bool {
+				r2 := objRef{T: ref.T, Param: prm, Path: ref.Path}
+				return func(e *an.Atom) bool { return judge(e, r2) }
+			}) {
+				return true
 			}
 			return false
 		}}); x == nil {
